@@ -78,3 +78,17 @@ def tx_model(draw, max_in=5, max_out=5, big=True, witness='any', min_out=0, scri
 def header_model(draw):
     return {'version': draw(i32), 'prev': draw(hash32).hex(), 'root': draw(hash32).hex(), 'time': draw(u32),
             'bits': draw(u32), 'nonce': draw(u32)}
+
+
+def confusables(c):
+    """code points a sloppy text decoder could take for the ASCII character c: same low byte / low 7 bits (table lookups with
+    & 0xff, latin-1 / ascii 'ignore' encodings), full-width forms, characters whose lower()/upper() IS c (Kelvin sign, long s,
+    dotless / dotted i), and decimal digits of other scripts (accepted by int() and str.isdigit())"""
+    o = ord(c)
+    out = [chr(o + 0x100), chr(o + 0x80), chr(o + 0x10000), chr(o + 0x4e00)]
+    if 0x21 <= o <= 0x7e:
+        out.append(chr(o + 0xfee0))
+    out += {'k': ['K'], 'K': ['K'], 's': ['ſ'], 'S': ['ſ'], 'i': ['ı', 'İ'], 'I': ['ı', 'İ']}.get(c, [])
+    if c.isdigit():
+        out += [chr(0x660 + int(c)), chr(0x966 + int(c)), chr(0xff10 + int(c))]
+    return [x for x in out if x != c]
